@@ -161,7 +161,11 @@ def cancelDueAll (w : World) (i : IId) : Bool := cancelDue w i || rootCancelled 
 
 def checks (w : World) : Label → Checks
   | .newBus b _ _ _ => [("newBus: id is not the next bus id", b == w.nb)]
-  | .on b _ _ _ => [("on: unknown bus", b < w.nb)]
+  | .on b _ k kind =>
+    [("on: unknown bus", b < w.nb),
+     ("on: the temporary handler of an expect() call is registered by that call only", !kind.isExpect),
+     ("on: this handler id is the one of a pending expect() subscription of the bus",
+        (w.bus b).handlers.all fun r => !(r.hid == k && r.kind.isExpect))]
   | .off b _ _ => [("off: unknown bus", b < w.nb)]
   | .newEvent e ty parent _ =>
     [("newEvent: id is not the next event id", e == w.ne),
@@ -367,9 +371,11 @@ def checks (w : World) : Label → Checks
   | .rlDropExit b =>
     [("rlDropExit: only a run loop that took an event, has not resumed yet and finds its bus stopped drops the event and leaves",
         (match (w.bus b).rl with | .took _ => true | _ => false) && !(w.bus b).woke && !(w.bus b).running)]
-  | .expectBegin x b _ _ _ _ =>
+  | .expectBegin x b _ k _ _ =>
     [("expectBegin: unknown bus", b < w.nb),
-     ("expectBegin: task is already blocked in a bus call", w.waiter x == .idle)]
+     ("expectBegin: task is already blocked in a bus call", w.waiter x == .idle),
+     ("expectBegin: the id of the temporary handler is already registered on the bus (handler ids are object identities)",
+        (w.bus b).handlers.all fun r => r.hid != k)]
   | .expectEnd x got =>
     [("expectEnd: expect() returns the event its handler resolved the future with, or times out at its deadline",
         match w.waiter x with
